@@ -821,6 +821,8 @@ func (g *generator) renderPkg(m *Module, p *gpkg, decls []*gpkg) {
 		m.Files[dir+"/gen_testdata_x.go"] = ex
 	}
 	if g.o.TestFiles {
+		// an excluded file that sorts first in its package and that nothing refers to
+		m.Files[dir+"/aa_testdata_first.go"] = "package " + p.name + "\n\n// @immutable\n// @constructor NewFirstExcluded\ntype FirstExcluded struct{ Q int }\n\nfunc touchFirst(f *FirstExcluded) { f.Q = 1 }\n"
 		// annotated functions / methods / types in an excluded (non-test) file: inert, whoever uses them
 		m.Files[dir+"/zz_testdata_decl.go"] = "package " + p.name + "\n\n// @testonly\n// @packageonly nobody\nfunc ExclHelper() int { return 1 }\n\n// @testonly\ntype ExclMock struct{ Z int }\n\n// @testonly\nfunc (e *ExclMock) Touch() {}\n"
 		// external test package
